@@ -34,6 +34,19 @@ type Init struct {
 	PreloadMem [][2]uint64 `json:"preload_mem,omitempty"` // [addr, len]
 	// Small: derived register values are below 2^31.
 	Small bool `json:"small,omitempty"`
+	// DataImage: [addr, len] ranges of the image that hold data, not executed code: a store
+	// there is an ordinary store (stores into other image bytes are self-modification, which
+	// is outside the property's domain).
+	DataImage [][2]uint64 `json:"data_image,omitempty"`
+}
+
+func (in *Init) isData(a uint64) bool {
+	for _, r := range in.DataImage {
+		if a-r[0] < r[1] {
+			return true
+		}
+	}
+	return false
 }
 
 func mix(a, seed uint64) uint64 {
@@ -382,7 +395,7 @@ func (m *Machine) Step() (d *Diff, done bool) {
 	m.Ref.Step(word, name)
 	// self-modification: outside the property's domain
 	for a := range m.Ref.Stores {
-		if _, ok := m.image[a]; ok {
+		if _, ok := m.image[a]; ok && !m.In.isData(a) {
 			m.SelfMod = true
 			return nil, true
 		}
